@@ -257,11 +257,12 @@ Proof.
     apply existsb_exists. exists b. split; assumption.
 Qed.
 
-(* a non-empty set: authorized iff some channel of it can be seen -- in the default and in a named collection *)
-Lemma authorize_any_nonempty def v cs :
-  cs <> [] -> authorize_any def v cs = existsb (can_see v) cs.
+(* a non-empty set: authorized iff some channel of it can be seen -- in the default and in a named collection,
+   before and after the repair *)
+Lemma authorize_any_with_nonempty oo def v cs :
+  cs <> [] -> authorize_any_with oo def v cs = existsb (can_see v) cs.
 Proof.
-  intros Hne. unfold authorize_any. destruct def.
+  intros Hne. unfold authorize_any_with. destruct def.
   - destruct cs; [congruence | reflexivity].
   - rewrite (any_own_nonempty _ _ Hne).
     assert (existsb (fun r => any_own (vr_ch r) cs) (uv_roles v) =
@@ -270,15 +271,37 @@ Proof.
     rewrite (existsb_swap (fun r c => can_see_own (vr_ch r) c)). unfold can_see. rewrite existsb_or. reflexivity.
 Qed.
 
-(* the empty set (a document in no channel): in a named collection, authorized iff "*" is in the effective set;
-   in the DEFAULT collection only the user's own "*" counts (auth/role.go authorizeAnyChannel reads princ.Channels()) *)
-Lemma authorize_any_empty_named v :
-  authorize_any false v [] = true <-> In star (effective_set v).
+Lemma authorize_any_nonempty def v cs : cs <> [] -> authorize_any def v cs = existsb (can_see v) cs.
+Proof. apply authorize_any_with_nonempty. Qed.
+
+(* the empty set (a document in no channel): authorized iff "*" is in the effective set *)
+Lemma authorize_any_with_empty_named oo v :
+  authorize_any_with oo false v [] = true <-> In star (effective_set v).
 Proof.
-  unfold authorize_any, any_own. rewrite orb_true_iff, existsb_exists, has_In, effective_in.
+  unfold authorize_any_with, any_own. rewrite orb_true_iff, existsb_exists, has_In, effective_in.
   split; (intros [H|[r [Hr H]]]; [left; exact H | right; exists r; split; [exact Hr|]]); apply has_In; exact H.
 Qed.
 
-Lemma authorize_any_empty_default v :
-  authorize_any true v [] = true <-> In star (keys (uv_own v)).
-Proof. unfold authorize_any. apply has_In. Qed.
+Lemma authorize_any_empty def v : authorize_any def v [] = true <-> In star (effective_set v).
+Proof.
+  destruct def; [|apply authorize_any_with_empty_named].
+  unfold authorize_any, authorize_any_with, default_empty_own_only. rewrite can_see_iff_in_effective. tauto.
+Qed.
+
+(* before the repair a58a51d, in the DEFAULT collection only the user's own "*" counted *)
+Lemma authorize_any_old_empty_default v :
+  authorize_any_with true true v [] = true <-> In star (keys (uv_own v)).
+Proof. unfold authorize_any_with. apply has_In. Qed.
+
+(* AuthorizeAnyCollectionChannel agrees with the effective set, for every channel set, in every collection *)
+Lemma authorize_any_agrees def v cs :
+  authorize_any def v cs = true <->
+  match cs with
+  | [] => In star (effective_set v)
+  | _ => exists c, In c cs /\ (In c (effective_set v) \/ In star (effective_set v))
+  end.
+Proof.
+  destruct cs as [|c0 cs]; [apply authorize_any_empty|].
+  rewrite authorize_any_nonempty by discriminate. rewrite existsb_exists.
+  split; intros [c [H1 H2]]; exists c; (split; [exact H1|]); apply can_see_iff_in_effective; exact H2.
+Qed.
